@@ -1,5 +1,7 @@
 package database
 
+import "strings"
+
 import (
 	"github.com/Vedant9500/WTF/internal/nlp"
 )
@@ -163,6 +165,63 @@ func VerifHarness_C20_Respellings() {
 	o := SearchOptions{Limit: 5, UseNLP: verifBool("nlp"), UseFuzzy: true, FuzzyThreshold: -30, AllPlatforms: true}
 	a := db.SearchUniversal(sp[0], o)
 	b := db.SearchUniversal(sp[verifIntRange("spelling", 1, 3)], o)
+	verifAssert(len(a) == len(b), "C20: a re-cased query returns the same number of results")
+	if len(a) == len(b) {
+		for k := range a {
+			verifAssert(a[k].Command == b[k].Command, "C20: a re-cased query returns the same commands in the same order")
+			verifAssert(c03SameFloat(a[k].Score, b[k].Score), "C20: a re-cased query returns the same scores")
+		}
+	}
+	verifReach("compared")
+	if len(a) > 0 {
+		verifReach("nonempty")
+	}
+}
+
+// repeated blanks between the words of a query: the legacy entry points (`wtf pipeline`) too
+func VerifHarness_C20_LegacySpacing() {
+	mk := func(cmd, desc string, pipe bool) Command {
+		c := Command{Command: cmd, Description: desc, Pipeline: pipe}
+		vFill(&c)
+		return c
+	}
+	db := &Database{Commands: []Command{mk("grep err f | wc -l", "count errors in a log", true), mk("wc -l f", "count lines", false), mk("grep err f | sort | uniq -c", "count distinct errors", true), mk("zz", "yy", false)}}
+	db.BuildUniversalIndex()
+	base := []string{"count errors", "count distinct errors", "errors log"}[verifIntRange("query", 0, 2)]
+	sep := []string{"  ", "\t", " \t ", "   "}[verifIntRange("sep", 0, 3)]
+	spaced := strings.ReplaceAll(base, " ", sep)
+	o := SearchOptions{Limit: 5, PipelineOnly: verifBool("pipelineOnly"), PipelineBoost: 2}
+	for _, pair := range [][2][]SearchResult{
+		{db.SearchWithPipelineOptions(base, o), db.SearchWithPipelineOptions(spaced, o)},
+		{db.SearchWithOptions(base, o), db.SearchWithOptions(spaced, o)},
+		{db.SearchUniversal(base, o), db.SearchUniversal(spaced, o)},
+	} {
+		a, b := pair[0], pair[1]
+		verifAssert(len(a) == len(b), "C20: repeated whitespace in a query does not change the number of results")
+		if len(a) == len(b) {
+			for k := range a {
+				verifAssert(a[k].Command == b[k].Command, "C20: repeated whitespace in a query does not change the results or their order")
+			}
+		}
+	}
+	verifReach("compared")
+	verifReach("nonempty")
+}
+
+// long queries (more terms than the cap) with a capitalised word late in the query
+func VerifHarness_C20_LongQueryCase() {
+	mk := func(cmd, desc string) Command {
+		c := Command{Command: cmd, Description: desc}
+		vFill(&c)
+		return c
+	}
+	db := &Database{Commands: []Command{mk("jps -l", "list java processes"), mk("aa", "bb cc dd"), mk("ee", "ff gg hh"), mk("ii", "jj kk ll"), mk("mm", "nn oo pp")}}
+	db.BuildUniversalIndex()
+	db.buildTFIDFSearcher()
+	lower := "aa bb cc dd ee ff gg hh ii jj kk ll restart java service"
+	upper := []string{"aa bb cc dd ee ff gg hh ii jj kk ll restart Java service", "AA bb cc dd ee ff gg hh ii jj kk ll restart JAVA Service"}[verifIntRange("spelling", 0, 1)]
+	o := SearchOptions{Limit: 8, AllPlatforms: true, UseNLP: verifBool("nlp"), TopTermsCap: []int{0, 6}[verifIntRange("termsCap", 0, 1)]}
+	a, b := db.SearchUniversal(lower, o), db.SearchUniversal(upper, o)
 	verifAssert(len(a) == len(b), "C20: a re-cased query returns the same number of results")
 	if len(a) == len(b) {
 		for k := range a {
